@@ -62,6 +62,17 @@ def _ordering_step(ctx, fi: FuncInfo) -> None:
         def resolve_rule_references(self, coll):
             byname = {x.n: x for x in coll.rules if isinstance(x, _Base)}
             self.referenced_rules = [SimpleRef(t, byname[t]) for t in self.targets]
+        def flatten_rules(self, include_correlations=True):
+            # as the public method of the rule class: a referred correlation rule comes *before* the rules it refers to
+            out = []
+            for ref in self.referenced_rules:
+                if isinstance(ref.rule, SigmaCorrelationRule):
+                    if include_correlations:
+                        out.append(ref.rule)
+                    out.extend(ref.rule.flatten_rules(include_correlations))
+                else:
+                    out.append(ref.rule)
+            return out
 
     class SimpleRef:
         def __init__(self, reference, rule=None): self.reference, self.rule = reference, rule
